@@ -369,6 +369,15 @@ pub fn check_sub(r: &mut Recorder, c: &Value) {
                         if b(&txt) != canon[$idx] || v.to_string() != txt || !(v == txt.as_str()) {
                             r.dis(&["C15"], concat!($name, "-canonical-text"), det(&s, canon[$idx].clone(), json!({"as_str": txt, "display": v.to_string()})));
                         }
+                        // == &str is true ONLY for the canonical text (C12, C15): other spellings and neighbours are unequal
+                        let mut others: Vec<String> = vec![txt.to_ascii_uppercase(), txt.to_ascii_lowercase(), format!("{}a", txt), txt[..txt.len() - 1].to_string(),
+                                                           format!(" {}", txt), String::new()];
+                        if let Ok(raw) = std::str::from_utf8(&s) { others.push(raw.to_string()); }
+                        for o in others {
+                            if o != txt && (v == o.as_str()) {
+                                r.dis(&["C12", "C15"], concat!($name, "-equals-foreign-text"), det(&s, json!(txt), json!(o)));
+                            }
+                        }
                         // re-parse of the canonical text (C05) and FromStr
                         match guard(|| <$ty>::from_str(&txt)) {
                             Ok(Ok(v2)) if v2 == v => {}
